@@ -1,9 +1,13 @@
 package hashring
 
 import (
+	"encoding/json"
 	"fmt"
 	"sort"
+	"strings"
+	"sync"
 	"testing"
+	"time"
 
 	"github.com/prometheus/client_golang/prometheus"
 
@@ -73,10 +77,206 @@ func TestC21(t *testing.T) {
 			yield(mk(zones, 1+rnd.Intn(n), rnd.Intn(3) > 0))
 		}
 	}
-	vt.Run(t, gen, nil, func(c vt.Case) (ev vt.Event) {
+	// concurrent scenarios (both tiers): see runC21Conc
+	genAll := func(yield func(vt.Case)) {
+		gen(yield)
+		for i, m := 0, vt.Pick(8, 16); i < m; i++ {
+			nz := 2 + rnd.Intn(3)
+			per := 2 + rnd.Intn(2)
+			zones := make([]int, nz)
+			for k := range zones {
+				zones[k] = per + rnd.Intn(2)
+			}
+			zoneAware := rnd.Intn(4) > 0
+			size := nz * (1 + rnd.Intn(per)) // zone aware: 1..per nodes of every zone
+			if !zoneAware {
+				size = 2 + rnd.Intn(nz*per-1)
+			}
+			ntenants := vt.Pick(48, 64)
+			cache := 1 // every lookup of another tenant evicts: constant recomputation
+			if i%2 == 0 {
+				cache = 4 * ntenants // cold cache that then keeps what the concurrent calls computed
+			}
+			yield(vt.Case{"kind": "conc", "op": "c21conc", "zones": zones, "rf": 1 + rnd.Intn(2),
+				"eps":      layoutEndpoints(rnd, zones, false, false),
+				"ss":       map[string]any{"size": size, "nozone": !zoneAware, "cache": cache, "ov": []any{}},
+				"ntenants": ntenants, "rounds": vt.Pick(4, 6), "nseries": 6, "sseed": rnd.Int63n(1 << 30)})
+		}
+	}
+	var w *hrWorker
+	defer func() {
+		if w != nil {
+			w.kill()
+		}
+	}()
+	vt.Run(t, genAll, nil, func(c vt.Case) (ev vt.Event) {
+		if vt.Str(c["kind"]) == "conc" {
+			return runC21Conc(t, &w, c)
+		}
 		guarded(t, "C21 case", func() { ev = runC21(c) })
 		return ev
 	})
+}
+
+// runC21Conc runs one concurrent scenario in the worker subprocess (so that a data race reported
+// by a -race build, or a crash, in the code under test cannot fail this test binary: only the
+// observed shards are judged, by the trace spec). The worker
+//   - computes every tenant's shard sequentially on a fresh hashring instance (the reference),
+//   - then, `rounds` times, builds a fresh instance (cold sub-ring cache; cache size 1 or large)
+//     and lets one goroutine per tenant, all released together, ask GetN(0..rf-1) for a few series
+//     and read the tenant's sub-ring through the cached lookup path.
+// Per tenant the trace line carries shards = <<sequential, round 1, ..., round R>> and the distinct
+// replica lists of all rounds: the same clauses as for the sequential cases apply.
+func runC21Conc(t *testing.T, wp **hrWorker, c vt.Case) vt.Event {
+	for attempt := 0; ; attempt++ {
+		if *wp == nil {
+			*wp = startWorker(t)
+		}
+		w := *wp
+		b, _ := json.Marshal(c)
+		_, err := w.in.Write(append(b, '\n'))
+		var line string
+		ok, dead := false, false
+		if err == nil {
+			line, ok, dead = w.next(10 * time.Minute)
+		}
+		if err != nil || dead {
+			w.kill()
+			*wp = nil
+			if attempt < 2 {
+				continue
+			}
+			t.Fatalf("C21: the worker subprocess keeps dying on the concurrent scenario %v", c)
+		}
+		if !ok {
+			w.kill()
+			*wp = nil
+			t.Fatalf("C21: concurrent scenario did not finish within 10 min (termination is judged by C19, not here)")
+		}
+		var ev vt.Event
+		dec := json.NewDecoder(strings.NewReader(line))
+		dec.UseNumber()
+		if err := dec.Decode(&ev); err != nil {
+			t.Fatalf("C21: bad worker answer %q: %v", line, err)
+		}
+		return ev
+	}
+}
+
+// c21ConcChild is the worker side of runC21Conc.
+func c21ConcChild(c vt.Case) vt.Event {
+	rf := vt.Int(c["rf"])
+	eps, ss, ovc := c21Config(c)
+	idx := map[string]int{}
+	for i, e := range eps {
+		idx[e.Address] = i + 1
+	}
+	ev := vt.Event{"built": false, "ovc": ovc, "tn": []any{}, "msg": ""}
+	build := func(cache int) (receive.Hashring, error) {
+		s2 := ss
+		s2.CacheSize = cache
+		cfg := []receive.HashringConfig{{Hashring: "h0", Endpoints: append([]receive.Endpoint(nil), eps...), ShuffleShardingConfig: s2}}
+		return receive.NewMultiHashring(receive.AlgorithmKetama, uint64(rf), cfg, prometheus.NewRegistry())
+	}
+	nt := vt.Int(c["ntenants"])
+	tenants := make([]string, nt)
+	for i := range tenants {
+		tenants[i] = fmt.Sprintf("tenant-%d-%d", vt.Int64(c["sseed"])%1000, i)
+	}
+	type tobs struct {
+		mu     sync.Mutex
+		ok     bool
+		msg    string
+		shards [][]int
+		reps   map[string][]int
+		order  []string
+	}
+	obs := make([]*tobs, nt)
+	for i := range obs {
+		obs[i] = &tobs{ok: true, reps: map[string][]int{}, shards: [][]int{}}
+	}
+	shardOf := func(o *tobs, h receive.Hashring, tenant string, cached bool) {
+		nodes, err := receive.VerifTenantShardNodes(h, 0, tenant, cached)
+		o.mu.Lock()
+		defer o.mu.Unlock()
+		if err != nil {
+			o.ok, o.msg = false, errStr(err)
+			return
+		}
+		s := make([]int, 0, len(nodes))
+		for _, n := range nodes {
+			s = append(s, idx[n.Address])
+		}
+		sort.Ints(s)
+		o.shards = append(o.shards, s)
+	}
+	// sequential reference on its own instance
+	ref, err := build(4 * nt)
+	if err != nil {
+		ev["msg"] = errStr(err)
+		return ev
+	}
+	ev["built"] = true
+	for i, tn := range tenants {
+		shardOf(obs[i], ref, tn, false)
+	}
+	rounds := vt.Int(c["rounds"])
+	for r := 0; r < rounds; r++ {
+		h, err := build(vt.Int(vt.Map(c["ss"])["cache"]))
+		if err != nil {
+			ev["built"], ev["msg"] = false, errStr(err)
+			return ev
+		}
+		var wg sync.WaitGroup
+		start := make(chan struct{})
+		for i, tn := range tenants {
+			wg.Add(1)
+			go func(o *tobs, tn string) {
+				defer wg.Done()
+				defer func() {
+					if p := recover(); p != nil { // a crash of the code under test: the tenant is not judged
+						o.mu.Lock()
+						o.ok, o.msg = false, fmt.Sprint("panic: ", p)
+						o.mu.Unlock()
+					}
+				}()
+				<-start
+				for k := 0; k < vt.Int(c["nseries"]); k++ {
+					reps, err := getReplicas(h, tn, series(vt.Int64(c["sseed"]), k), rf)
+					o.mu.Lock()
+					if err != nil {
+						o.ok, o.msg = false, errStr(err)
+					} else {
+						ri := make([]int, len(reps))
+						for i, a := range reps {
+							ri[i] = idx[a]
+						}
+						key := fmt.Sprint(ri)
+						if _, seen := o.reps[key]; !seen {
+							o.reps[key] = ri
+							o.order = append(o.order, key)
+						}
+					}
+					o.mu.Unlock()
+				}
+				shardOf(o, h, tn, true)
+			}(obs[i], tn)
+		}
+		close(start)
+		wg.Wait()
+	}
+	tn := make([]any, 0, nt)
+	for i, name := range tenants {
+		o := obs[i]
+		reps := make([]any, 0, len(o.order))
+		for _, k := range o.order {
+			reps = append(reps, o.reps[k])
+		}
+		tn = append(tn, map[string]any{"name": name, "tc": chars(name), "ok": o.ok && len(o.shards) == rounds+1,
+			"shards": o.shards, "reps": reps, "errs": 0, "msg": o.msg})
+	}
+	ev["tn"] = tn
+	return ev
 }
 
 func chars(s string) []string {
